@@ -9,8 +9,12 @@ import json
 import os
 import numpy as np
 from harness import common as C
+from harness import c03lib as L
 
-RULE = ('random complex fields on m x n grids (3..12 quick / ..20 thorough, every parity pair, square and not); embeddings '
+RULE = ('random fields of dtype complex128 / float64 / int64 / bool in C, Fortran, transposed-view and strided-view layout on m x n '
+        'grids (1..10 quick / ..18 thorough, every parity pair, square and not); sample counts as int / tuple / list / ndarray, '
+        'shifts as tuple / list / ndarray / default; masks real / complex / binary / bool / int / strided, as arrays or Wavefronts '
+        '(with and without fpm_dx); Lyot stop absent / array / Wavefront; return_more on and off; embeddings '
         'into (m+a) x (n+b) zero arrays with a,b in 0..7 (every parity of the enlarged axis); output grids of every parity; '
         'requested spacing 0.31..1.7 x the FFT spacing; shifts 0 / integer / fractional samples per axis; methods mdft and czt; '
         'both directions; executor level additionally with per-axis Q = (Qy,Qx), Qy != Qx; masks: all-pass on a band-complete '
@@ -39,6 +43,15 @@ def _field(seed, shape, real=False):
     return a.astype(complex) if real else a + 1j * b
 
 
+def _cfield(c, off=0, shape=None):
+    """the case's field: dtype and memory layout from the case (complex128 / C when the case does not say)"""
+    return L.make_field(c['seed'] + off, shape or (c['m'], c['n']), c.get('dtype', 'c16'), c.get('layout', 'C'))
+
+
+def _unchanged(arrs, snaps):
+    return all(a.dtype == b.dtype and np.array_equal(a, b) for a, b in zip(arrs, snaps))
+
+
 def _relerr(a, b):
     return float(np.abs(a - b).max() / max(1.0, np.abs(b).max()))
 
@@ -53,12 +66,13 @@ def embed(f, shape):
     return out
 
 
-def _fs(c, f, shape_out=None, shift=None, dx_in=None):
+def _fs(c, f, shape_out=None, shift=None, dx_in=None, method=None):
     pr, _ = _impl()
     fn = pr.focus_fixed_sampling if c['dir'] == 'fwd' else pr.unfocus_fixed_sampling
     so = shape_out or (c['M'], c['N'])
     sh = shift if shift is not None else (c['shift'][0] * c['dxo'], c['shift'][1] * c['dxo'])
-    return fn(f, c['dx'], c['efl'], c['lam'], c['dxo'], so, shift=sh, method=c['method'])
+    return L.call_fixed(fn, f, c['dx'], c['efl'], c['lam'], c['dxo'], so[0], so[1], sh[0], sh[1], method or c['method'],
+                        c.get('sform', 'tuple'), c.get('hform', 'tuple') if any(sh) or c.get('hform') != 'default' else 'default')
 
 
 # ------------------------------------------------------------------------------------------------
@@ -66,18 +80,21 @@ def _fs(c, f, shape_out=None, shift=None, dx_in=None):
 # ------------------------------------------------------------------------------------------------
 def pred_linear(c):
     m, n = c['m'], c['n']
-    f, g = _field(c['seed'], (m, n)), _field(c['seed'] + 1, (m, n))
+    f, g = _cfield(c), _cfield(c, 1)
+    f0, g0 = f.copy(), g.copy()
     a, b = complex(*c['a']), complex(*c['b'])
     lhs = _fs(c, a * f + b * g)
     rhs = a * _fs(c, f) + b * _fs(c, g)
+    if not _unchanged((f, g), (f0, g0)):
+        return 'an input array was modified in place'
     err = _relerr(lhs, rhs)
-    return None if err <= TOL else f'T(a f + b g) != a T(f) + b T(g) (rel. err {err:.3g})'
+    return None if err <= TOL else f'T(a f + b g) != a T(f) + b T(g) for {f0.dtype} fields (rel. err {err:.3g})'
 
 
 def pred_pad(c):
     m, n = c['m'], c['n']
-    f = _field(c['seed'], (m, n))
-    big = embed(f, (m + c['pad'][0], n + c['pad'][1]))
+    f = _cfield(c)
+    big = embed(np.array(f), (m + c['pad'][0], n + c['pad'][1]))
     a, b = _fs(c, f), _fs(c, big)
     err = _relerr(b, a)
     return None if err <= TOL else (f'output changes when the {m}x{n} field is embedded in a {big.shape[0]}x{big.shape[1]} zero array '
@@ -86,12 +103,20 @@ def pred_pad(c):
 
 def pred_transpose(c):
     m, n = c['m'], c['n']
-    f = _field(c['seed'], (m, n))
+    f = _cfield(c)
     sx, sy = c['shift'][0] * c['dxo'], c['shift'][1] * c['dxo']
     a = _fs(c, f, (c['M'], c['N']), (sx, sy))
-    b = _fs(c, f.T.copy(), (c['N'], c['M']), (sy, sx))
+    b = _fs(c, f.T, (c['N'], c['M']), (sy, sx))       # a transposed VIEW (non-contiguous), as a user would pass it
     err = _relerr(b.T, a)
     return None if err <= TOL else f'T(f^T; swapped samples and shifts) != T(f)^T (rel. err {err:.3g})'
+
+
+def pred_methods_agree(c):
+    """both methods return the same complex array, with or without a shift, for every dtype"""
+    f = _cfield(c)
+    a, b = _fs(c, f, method='mdft'), _fs(c, f, method='czt')
+    err = _relerr(b, a)
+    return None if err <= TOL else f"method='czt' and method='mdft' disagree as complex arrays for a {f.dtype} field (rel. err {err:.3g})"
 
 
 def _exec(c, f, Q=None, so=None, shift=None):
@@ -102,9 +127,9 @@ def _exec(c, f, Q=None, so=None, shift=None):
 
 def pred_exec_transpose(c):
     """executor level, per-axis Q: dft2(f^T, (Qx,Qy), (N,M), (sy,sx)) = dft2(f, (Qy,Qx), (M,N), (sx,sy))^T"""
-    f = _field(c['seed'], (c['m'], c['n']))
+    f = _cfield(c)
     a = _exec(c, f)
-    b = _exec(c, f.T.copy(), (c['Q'][1], c['Q'][0]), (c['N'], c['M']), (c['shift'][1], c['shift'][0]))
+    b = _exec(c, f.T, (c['Q'][1], c['Q'][0]), (c['N'], c['M']), (c['shift'][1], c['shift'][0]))
     err = _relerr(b.T, a)
     return None if err <= TOL else f'executor transform of f^T with swapped per-axis Q / samples / shifts != transpose (rel. err {err:.3g})'
 
@@ -112,9 +137,9 @@ def pred_exec_transpose(c):
 def pred_exec_pad(c):
     """executor level: embedding with n_a * Q_a kept constant per axis leaves the output unchanged"""
     m, n = c['m'], c['n']
-    f = _field(c['seed'], (m, n))
+    f = _cfield(c)
     m2, n2 = m + c['pad'][0], n + c['pad'][1]
-    big = embed(f, (m2, n2))
+    big = embed(np.array(f), (m2, n2))
     Q2 = (c['Q'][0] * m / m2, c['Q'][1] * n / n2)
     a, b = _exec(c, f), _exec(c, big, Q2)
     # the norm sqrt(1/(m Qy n Qx)) is unchanged because m Q is
@@ -137,28 +162,47 @@ def pred_exec_separable(c):
 
 
 def _fpm_args(c):
-    f = _field(c['seed'], (c['m'], c['n']))
+    f = _cfield(c)
     return f, (c['shift'][0] * c['fdx'], c['shift'][1] * c['fdx'])
 
 
-def pred_allpass(c):
-    """mask == 1 on a band-complete M x M grid (M fpm_dx dx = lambda f, M >= m, n): the field comes back, for every shift"""
+def _T(c, f, mask, sh=None, method=None, fdx='case', **kw):
+    """to_fpm_and_back as a free function"""
     pr, _ = _impl()
-    f, sh = _fpm_args(c)
+    if sh is None:
+        sh = (c['shift'][0] * c['fdx'], c['shift'][1] * c['fdx'])
+    return pr.to_fpm_and_back(f, c['dx'], c['efl'], c['lam'], mask, c['fdx'] if fdx == 'case' else fdx, shift=sh,
+                              method=method or c['method'], **kw)
+
+
+def pred_allpass(c):
+    """mask == 1 on a band-complete M x M grid (M fpm_dx dx = lambda f, M >= m, n): the field comes back, for every shift;
+    through the Wavefront method the result is a pupil-plane Wavefront with the pupil's dx"""
+    pr, _ = _impl()
+    f = _cfield(c)
+    f0 = f.copy()
     M = c['M']
     fdx = c['lam'] * c['efl'] / (M * c['dx'])
     sh = (c['shift'][0] * fdx, c['shift'][1] * fdx)
-    mask = np.ones((M, M))
+    mask = np.ones((M, M), dtype={'b1': bool, 'i8': np.int64}.get(c.get('mdtype'), float))
     fdx_arg = fdx
     if c.get('mask_wf'):
-        # the documented alternative: the mask is a Wavefront that carries its own sampling, fpm_dx is not passed
-        mask, fdx_arg = pr.Wavefront(mask.astype(complex), c['lam'], fdx, 'psf'), None
+        # the documented alternative: the mask is a Wavefront that carries its own sampling; fpm_dx is then optional
+        mask = pr.Wavefront(mask.astype(complex), c['lam'], fdx, 'psf')
+        fdx_arg = None if c.get('mask_wf') != 'with_dx' else fdx
     if c.get('wavefront'):
-        out = pr.Wavefront(f, c['lam'], c['dx']).to_fpm_and_back(c['efl'], mask, fdx_arg, method=c['method'], shift=sh).data
+        w = pr.Wavefront(f, c['lam'], c['dx']).to_fpm_and_back(c['efl'], mask, fdx_arg, method=c['method'], shift=sh)
+        bad = L.check_wavefront(w, 'Wavefront.to_fpm_and_back(...)', f.shape, c['dx'], c['lam'], 'pupil')
+        if bad:
+            return bad
+        out = w.data
     else:
         out = pr.to_fpm_and_back(f, c['dx'], c['efl'], c['lam'], mask, fdx_arg, shift=sh, method=c['method'])
-    err = _relerr(out, f)
-    return None if err <= TOL else f'all-pass mask on a band-complete {M}x{M} grid with shift {c["shift"]} samples does not return the field (rel. err {err:.3g})'
+    if not _unchanged((f,), (f0,)):
+        return 'the input field was modified in place'
+    err = _relerr(out, L.as_complex(f0)) if np.shape(out) == f0.shape else float('inf')
+    return None if err <= TOL else (f'all-pass mask on a band-complete {M}x{M} grid with shift {c["shift"]} samples does not return the '
+                                    f'{f0.dtype} field (rel. err {err:.3g})')
 
 
 def _mask(c):
@@ -167,54 +211,187 @@ def _mask(c):
         return _field(c['seed'] + 7, shape, real=True).real
     if c['mask'] == 'binary':
         return (_field(c['seed'] + 7, shape).real > 0).astype(float)
+    if c['mask'] == 'bool':
+        return _field(c['seed'] + 7, shape).real > 0
+    if c['mask'] == 'int':
+        return np.round(2 * _field(c['seed'] + 7, shape).real).astype(np.int64)
+    if c['mask'] == 'strided':
+        return L.make_field(c['seed'] + 7, shape, 'c16', 'S')
     return _field(c['seed'] + 7, shape)
+
+
+def _num(mask):
+    """the mask as numbers (1 - True is not defined for bool arrays)"""
+    return mask.astype(float) if mask.dtype == bool else mask
 
 
 def pred_babinet(c):
     """T(mask) + T(1 - mask) = T(1); T(m1 + m2) = T(m1) + T(m2); T(c m) = c T(m) (the path is C-linear in the mask)"""
-    pr, _ = _impl()
     f, sh = _fpm_args(c)
     mk = _mask(c)
+    mk0, f0 = mk.copy(), f.copy()
     m2 = _field(c['seed'] + 9, mk.shape)
-
-    def T(msk):
-        return pr.to_fpm_and_back(f, c['dx'], c['efl'], c['lam'], msk, c['fdx'], shift=sh, method=c['method'])
-    one = T(np.ones(mk.shape))
-    err = _relerr(T(mk) + T(1 - mk), one)
+    one = _T(c, f, np.ones(mk.shape))
+    tm = _T(c, f, mk)
+    if not _unchanged((f, mk), (f0, mk0)):
+        return 'the field or the mask was modified in place'
+    err = _relerr(tm + _T(c, f, 1 - _num(mk)), one)
     if err > TOL:
-        return f'mask and complement do not sum to the unmasked result (rel. err {err:.3g})'
-    err = _relerr(T(mk + m2), T(mk) + T(m2))
+        return f'{mk.dtype} mask and complement do not sum to the unmasked result (rel. err {err:.3g})'
+    err = _relerr(_T(c, f, _num(mk) + m2), tm + _T(c, f, m2))
     if err > TOL:
         return f'T(m1 + m2) != T(m1) + T(m2) (rel. err {err:.3g})'
     cc = 0.75 - 1.25j
-    err = _relerr(T(cc * m2), cc * T(m2))
+    err = _relerr(_T(c, f, cc * m2), cc * _T(c, f, m2))
     if err > TOL:
         return f'T(c m) != c T(m) for the complex scalar c = {cc} and a complex mask (rel. err {err:.3g})'
     return None
 
 
+def pred_fpm_field(c):
+    """to_fpm_and_back itself, for a fixed mask: linear in the field, unchanged under zero-pad embedding of the field,
+    transposed when field, mask and shifts are transposed, and the same by either method"""
+    f, sh = _fpm_args(c)
+    g = _cfield(c, 1)
+    mk = _mask(c)
+    a, b = complex(*c.get('a', [1.5, -0.5])), complex(*c.get('b', [0.25, 2.0]))
+    base = _T(c, f, mk)
+    err = _relerr(_T(c, a * f + b * g, mk), a * base + b * _T(c, g, mk))
+    if err > TOL:
+        return f'to_fpm_and_back is not linear in the field (rel. err {err:.3g})'
+    pad = c.get('pad', [2, 3])
+    big = _T(c, embed(np.array(f), (c['m'] + pad[0], c['n'] + pad[1])), mk)
+    oy, ox = (c['m'] + pad[0]) // 2 - c['m'] // 2, (c['n'] + pad[1]) // 2 - c['n'] // 2
+    inner = big[oy:oy + c['m'], ox:ox + c['n']]
+    err = _relerr(inner, base)
+    if err > TOL:
+        return f'to_fpm_and_back of the zero-pad-embedded field differs on the original support (rel. err {err:.3g})'
+    t = _T(c, f.T, np.asarray(mk).T, (sh[1], sh[0]))
+    err = _relerr(t.T, base)
+    if err > TOL:
+        return f'to_fpm_and_back of transposed field / mask / shifts is not the transpose (rel. err {err:.3g})'
+    err = _relerr(_T(c, f, mk, method='czt'), _T(c, f, mk, method='mdft'))
+    if err > TOL:
+        return f'to_fpm_and_back differs between the two methods (rel. err {err:.3g})'
+    return None
+
+
+def pred_return_more(c):
+    """return_more=True: (back, at_fpm, after_fpm) in that order, at_fpm = focus_fixed_sampling onto the mask grid,
+    after_fpm = at_fpm * mask, back = the return_more=False result; through the Wavefront method every returned plane is a
+    Wavefront with THAT plane's spacing and space — also when the mask is a Wavefront and fpm_dx is left out"""
+    pr, _ = _impl()
+    f, sh = _fpm_args(c)
+    mk = _mask(c)
+    fdx = c['fdx']
+    plain = _T(c, f, mk)
+    at_ref = pr.focus_fixed_sampling(f, c['dx'], c['efl'], c['lam'], fdx, mk.shape, shift=sh, method=c['method'])
+    mask_arg, fdx_arg = mk, fdx
+    if c.get('mask_wf'):
+        mask_arg = pr.Wavefront(np.asarray(mk, dtype=complex), c['lam'], fdx, 'psf')
+        fdx_arg = None if c.get('mask_wf') != 'with_dx' else fdx
+    if c.get('wavefront'):
+        pak = pr.Wavefront(f, c['lam'], c['dx']).to_fpm_and_back(c['efl'], mask_arg, fdx_arg, method=c['method'], shift=sh, return_more=True)
+    else:
+        pak = pr.to_fpm_and_back(f, c['dx'], c['efl'], c['lam'], mask_arg, fdx_arg, shift=sh, method=c['method'], return_more=True)
+    if not isinstance(pak, tuple) or len(pak) != 3:
+        return f'return_more=True returned {type(pak).__name__} of length {len(pak) if hasattr(pak, "__len__") else "?"}, expected a 3-tuple'
+    names = ('field at the next pupil', 'field at the fpm', 'field after the fpm')
+    refs = (plain, at_ref, at_ref * _num(mk))
+    spaces = ('pupil', 'psf', 'psf')
+    dxs = (c['dx'], fdx, fdx)
+    for w, nm, ref, sp, d in zip(pak, names, refs, spaces, dxs):
+        if c.get('wavefront'):
+            bad = L.check_wavefront(w, f'return_more[{nm}]', ref.shape, d, c['lam'], sp)
+            if bad:
+                return bad
+            w = w.data
+        if not isinstance(w, np.ndarray) or w.shape != ref.shape:
+            return f'return_more[{nm}] has shape {getattr(w, "shape", None)}, expected {ref.shape}'
+        err = _relerr(w, ref)
+        if err > TOL:
+            return f'return_more[{nm}] is not the {nm} (rel. err {err:.3g})'
+    return None
+
+
 def pred_babinet_wavefront(c):
-    """Wavefront.babinet(lyot, fpm=B) = lyot * (field - T(1 - B)) and, by additivity, = lyot * (field - T(1) + T(B))"""
+    """Wavefront.babinet(lyot, fpm=B) = lyot * (field - T(1 - B)) and, by additivity, = lyot * (field - T(1) + T(B)); the Lyot stop
+    and the mask may be arrays or Wavefronts; with return_more the four planes come back in the documented order, each a
+    Wavefront with its own plane's spacing"""
     pr, _ = _impl()
     f, _ = _fpm_args(c)
-    B = _mask(c)
+    B = _num(_mask(c))
     lyot = _field(c['seed'] + 11, f.shape) if c.get('lyot') else None
     wf = pr.Wavefront(f, c['lam'], c['dx'])
+    lyot_arg = lyot
+    if lyot is not None and c.get('lyot') == 'wavefront':
+        lyot_arg = pr.Wavefront(lyot, c['lam'], c['dx'], 'pupil')
     if c.get('mask_wf'):
-        out = wf.babinet(c['efl'], lyot, pr.Wavefront(np.asarray(B, dtype=complex), c['lam'], c['fdx'], 'psf'), None, method=c['method']).data
+        args = (c['efl'], lyot_arg, pr.Wavefront(np.asarray(B, dtype=complex), c['lam'], c['fdx'], 'psf'),
+                None if c.get('mask_wf') != 'with_dx' else c['fdx'])
     else:
-        out = wf.babinet(c['efl'], lyot, B, c['fdx'], method=c['method']).data
-
-    def T(msk):
-        return pr.to_fpm_and_back(f, c['dx'], c['efl'], c['lam'], msk, c['fdx'], method=c['method'])
-    L = 1 if lyot is None else lyot
-    ref = L * (f - T(np.ones(B.shape)) + T(B))
-    err = _relerr(out, ref)
+        args = (c['efl'], lyot_arg, B, c['fdx'])
+    res = wf.babinet(*args, method=c['method'], return_more=bool(c.get('return_more')))
+    lw = 1 if lyot is None else lyot
+    t_comp = _T(c, f, 1 - B, sh=(0, 0))
+    at_lyot = L.as_complex(f) - t_comp
+    ref = lw * (L.as_complex(f) - _T(c, f, np.ones(B.shape), sh=(0, 0)) + _T(c, f, B, sh=(0, 0)))
+    if c.get('return_more'):
+        if not isinstance(res, tuple) or len(res) != 4:
+            return f'babinet(return_more=True) returned {type(res).__name__}, expected a 4-tuple'
+        at_fpm = pr.focus_fixed_sampling(f, c['dx'], c['efl'], c['lam'], c['fdx'], B.shape, method=c['method'])
+        planes = (('field after lyot', ref, c['dx'], 'pupil'), ('field at fpm', at_fpm, c['fdx'], 'psf'),
+                  ('field after fpm', at_fpm * (1 - B), c['fdx'], 'psf'), ('field at lyot', at_lyot, c['dx'], 'pupil'))
+        for w, (nm, r, d, sp) in zip(res, planes):
+            bad = L.check_wavefront(w, f'babinet return_more[{nm}]', r.shape, d, c['lam'], sp)
+            if bad:
+                return bad
+            err = _relerr(w.data, r)
+            if err > TOL:
+                return f'babinet return_more[{nm}] is not the {nm} (rel. err {err:.3g})'
+        return None
+    bad = L.check_wavefront(res, 'babinet(...)', f.shape, c['dx'], c['lam'], 'pupil')
+    if bad:
+        return bad
+    err = _relerr(res.data, ref)
     return None if err <= TOL else f'babinet(B) != lyot*(field - T(1) + T(B)) (rel. err {err:.3g})'
 
 
-PREDS = {'linear': pred_linear, 'pad': pred_pad, 'transpose': pred_transpose, 'exec_transpose': pred_exec_transpose,
-         'exec_pad': pred_exec_pad, 'exec_separable': pred_exec_separable, 'allpass': pred_allpass, 'babinet': pred_babinet, 'babinet_wavefront': pred_babinet_wavefront}
+PREDS = {'linear': pred_linear, 'pad': pred_pad, 'transpose': pred_transpose, 'methods_agree': pred_methods_agree,
+         'exec_transpose': pred_exec_transpose, 'exec_pad': pred_exec_pad, 'exec_separable': pred_exec_separable,
+         'allpass': pred_allpass, 'babinet': pred_babinet, 'babinet_wavefront': pred_babinet_wavefront,
+         'fpm_field': pred_fpm_field, 'return_more': pred_return_more}
+
+
+def pred_pure(c):
+    """replay of a purity failure reported by the correspondence (same call twice, inputs untouched)"""
+    pr, _ = _impl()
+    if 'My' in c or c.get('mask') == 'ones':
+        f, sh = _fpm_args(c)
+        mk = np.ones((c['M'], c['M'])) if c.get('mask') == 'ones' else _mask(c)
+        arrs = (f, mk)
+        call = lambda: pr.to_fpm_and_back(f, c['dx'], c['efl'], c['lam'], mk, c['fdx'], shift=sh, method=c['method'])   # noqa: E731
+    elif 'Q' in c:
+        f = _cfield(c)
+        arrs = (f,)
+        call = lambda: _exec(c, f)   # noqa: E731
+    else:
+        f = _cfield(c)
+        if c.get('variant') == 'embedded':
+            f = embed(np.array(f), (c['m'] + c['pad'][0], c['n'] + c['pad'][1]))
+        arrs = (f,)
+        call = lambda: _fs(c, f)   # noqa: E731
+    snaps = [a.copy() for a in arrs]
+    r1 = np.array(call())
+    if not _unchanged(arrs, snaps):
+        return 'implementation modified a caller-owned argument array in place'
+    r2 = np.array(call())
+    if r1.shape != r2.shape or not np.array_equal(r1, r2):
+        return 'second evaluation with the same arguments differs from the first (history dependence)'
+    return None
+
+
+PREDS.update({'fixed_vs_model': pred_pure, 'exec_vs_model': pred_pure, 'fpm_vs_model': pred_pure})
 
 
 def eval_pred(item, c):
@@ -235,18 +412,23 @@ def _optics(rng):
 
 
 def gen_fixed(rng, hi, i):
-    m, n = int(rng.integers(3, hi + 1)), int(rng.integers(3, hi + 1))
+    m, n = int(rng.integers(1, hi + 1)), int(rng.integers(1, hi + 1))
     if rng.integers(4) == 0:
         n = m
-    M, N = int(rng.integers(2, hi + 5)), int(rng.integers(2, hi + 5))
+    M, N = int(rng.integers(1, hi + 5)), int(rng.integers(1, hi + 5))
+    if rng.integers(4) == 0:
+        N = M
     lam, efl, dx = _optics(rng)
     fac = FACT[int(rng.integers(len(FACT)))]
     dxo = fac * lam * efl / ((n if rng.integers(2) else m) * dx)
     sh = SHIFTS[int(rng.integers(len(SHIFTS)))] if rng.integers(3) else (0, 0)
+    dtype, layout = L.draw_kind(rng)
+    sform, hform = L.draw_forms(rng, M, N, sh)
     return {'dir': 'fwd' if rng.integers(2) else 'inv', 'm': m, 'n': n, 'M': M, 'N': N, 'lam': lam, 'efl': efl, 'dx': dx,
             'dxo': dxo, 'shift': list(sh), 'method': 'czt' if rng.integers(2) else 'mdft', 'seed': int(rng.integers(1 << 30)),
             'pad': [int(rng.integers(0, 8)), int(rng.integers(0, 8))],
-            'a': [float(rng.uniform(-2, 2)), float(rng.uniform(-2, 2))], 'b': [float(rng.uniform(-2, 2)), float(rng.uniform(-2, 2))]}
+            'a': [float(rng.uniform(-2, 2)), float(rng.uniform(-2, 2))], 'b': [float(rng.uniform(-2, 2)), float(rng.uniform(-2, 2))],
+            'dtype': dtype, 'layout': layout, 'sform': sform, 'hform': hform}
 
 
 def gen_exec(rng, hi, i):
@@ -256,36 +438,44 @@ def gen_exec(rng, hi, i):
     if rng.integers(4) == 0:
         Qx = Qy
     c['Q'] = [Qy, Qx]
-    for k in ('lam', 'efl', 'dx', 'dxo', 'a', 'b'):
+    for k in ('lam', 'efl', 'dx', 'dxo', 'a', 'b', 'sform', 'hform'):
         del c[k]
     return c
 
 
+def _mask_wf(rng):
+    return [False, False, True, 'with_dx'][int(rng.integers(4))]
+
+
 def gen_allpass(rng, hi, i):
-    m, n = int(rng.integers(2, hi + 1)), int(rng.integers(2, hi + 1))
+    m, n = int(rng.integers(1, hi + 1)), int(rng.integers(1, hi + 1))
     if rng.integers(4) == 0:
         n = m
     M = max(m, n) + int(rng.integers(0, 6))
     lam, efl, dx = _optics(rng)
     sh = SHIFTS[int(rng.integers(len(SHIFTS)))] if rng.integers(4) else (0, 0)
+    dtype, layout = L.draw_kind(rng)
     return {'m': m, 'n': n, 'M': M, 'lam': lam, 'efl': efl, 'dx': dx, 'shift': list(sh), 'fdx': lam * efl / (M * dx),
             'method': 'czt' if rng.integers(2) else 'mdft', 'seed': int(rng.integers(1 << 30)), 'wavefront': bool(rng.integers(2)),
-            'mask_wf': bool(rng.integers(4) == 0)}
+            'mask_wf': _mask_wf(rng), 'dtype': dtype, 'layout': layout, 'mdtype': ['f8', 'f8', 'b1', 'i8'][int(rng.integers(4))]}
 
 
 def gen_fpm(rng, hi, i):
-    m, n = int(rng.integers(2, hi + 1)), int(rng.integers(2, hi + 1))
+    m, n = int(rng.integers(1, hi + 1)), int(rng.integers(1, hi + 1))
     if rng.integers(4) == 0:
         n = m
-    My, Mx = int(rng.integers(2, hi + 5)), int(rng.integers(2, hi + 5))
+    My, Mx = int(rng.integers(1, hi + 5)), int(rng.integers(1, hi + 5))
     lam, efl, dx = _optics(rng)
     fac = FACT[int(rng.integers(len(FACT)))]
     fdx = fac * lam * efl / (max(m, n) * dx)
     sh = SHIFTS[int(rng.integers(len(SHIFTS)))] if rng.integers(3) else (0, 0)
+    dtype, layout = L.draw_kind(rng)
     return {'m': m, 'n': n, 'My': My, 'Mx': Mx, 'lam': lam, 'efl': efl, 'dx': dx, 'fdx': fdx, 'shift': list(sh),
             'method': 'czt' if rng.integers(2) else 'mdft', 'seed': int(rng.integers(1 << 30)),
-            'mask': ['real', 'complex', 'binary'][int(rng.integers(3))], 'lyot': bool(rng.integers(2)),
-            'mask_wf': bool(rng.integers(4) == 0)}
+            'mask': ['real', 'complex', 'binary', 'bool', 'int', 'strided', 'complex'][int(rng.integers(7))],
+            'lyot': [False, True, 'wavefront'][int(rng.integers(3))], 'mask_wf': _mask_wf(rng), 'wavefront': bool(rng.integers(2)),
+            'return_more': bool(rng.integers(2)), 'dtype': dtype, 'layout': layout,
+            'pad': [int(rng.integers(0, 5)), int(rng.integers(0, 5))]}
 
 
 # ------------------------------------------------------------------------------------------------
@@ -326,17 +516,17 @@ def correspondence(ctx):
     # metamorphic triples, each member also sent to the model
     for i in range(n_meta):
         c = gen_fixed(rng, hi, i)
-        f = _field(c['seed'], (c['m'], c['n']))
+        f = _cfield(c)
         sx, sy = c['shift'][0] * c['dxo'], c['shift'][1] * c['dxo']
         variants = [('plain', f, (c['M'], c['N']), (sx, sy)),
-                    ('embedded', embed(f, (c['m'] + c['pad'][0], c['n'] + c['pad'][1])), (c['M'], c['N']), (sx, sy)),
-                    ('transposed', f.T.copy(), (c['N'], c['M']), (sy, sx))]
+                    ('embedded', embed(np.array(f), (c['m'] + c['pad'][0], c['n'] + c['pad'][1])), (c['M'], c['N']), (sx, sy)),
+                    ('transposed', f.T, (c['N'], c['M']), (sy, sx))]
         for name, arr, so, sh in variants:
             lines.append(_fs_line(c, arr, so, sh))
             meta.append(('fs', (c, name, arr, so, sh)))
     for i in range(n_exec):
         c = gen_exec(rng, hi, i)
-        f = _field(c['seed'], (c['m'], c['n']))
+        f = _cfield(c)
         head = ['ex', c['dir'], str(c['m']), str(c['n']), str(c['M']), str(c['N'])]
         nums = [C.f2w(v) for v in (c['Q'][0], c['Q'][1], c['shift'][0], c['shift'][1])]
         lines.append(' '.join(head + nums + _wire_field(f)))
@@ -349,6 +539,8 @@ def correspondence(ctx):
         else:
             mk = _mask(c)
         f, sh = _fpm_args(c)
+        if min(c['m'], c['n']) < 1:
+            continue
         head = ['fpm', str(c['m']), str(c['n']), str(c['My']), str(c['Mx'])]
         nums = [C.f2w(v) for v in (c['dx'], c['efl'], c['lam'], c['fdx'], sh[0], sh[1])]
         lines.append(' '.join(head + nums + _wire_field(f) + _wire_field(mk)))
@@ -365,10 +557,11 @@ def correspondence(ctx):
         if kind == 'fs':
             c, name, arr, so, sh = dat
             case = dict(c, variant=name)
-            tag = f"{name}/{c['dir']}/{c['method']}/{'sq' if c['m'] == c['n'] else 'nonsq'}/{'shift' if any(c['shift']) else 'noshift'}"
+            tag = (f"{name}/{c['dir']}/{c['method']}/{'sq' if c['m'] == c['n'] else 'nonsq'}/{'shift' if any(c['shift']) else 'noshift'}/"
+                   f"{c['dtype']}-{c['layout']}/samples-{c['sform']}")
             ctx.case('fixed_vs_model', case, nontrivial=arr.size > 1, tag=tag)
             try:
-                out = _fs(c, arr, so, sh)
+                out = C.pure_call(ctx, 'fixed_vs_model', case, _fs, c, arr, so, sh)
             except Exception as ex:
                 ctx.disagree('fixed_vs_model', case, f'raised {type(ex).__name__}: {ex}', 'model returns a field')
                 continue
@@ -383,7 +576,7 @@ def correspondence(ctx):
             tag = f"{c['dir']}/{c['method']}/{'Qiso' if c['Q'][0] == c['Q'][1] else 'Qaniso'}/{'sq' if c['m'] == c['n'] else 'nonsq'}"
             ctx.case('exec_vs_model', c, nontrivial=f.size > 1, tag=tag)
             try:
-                out = _exec(c, f)
+                out = C.pure_call(ctx, 'exec_vs_model', c, _exec, c, f)
             except Exception as ex:
                 ctx.disagree('exec_vs_model', c, f'raised {type(ex).__name__}: {ex}', 'model returns a field')
                 continue
@@ -398,7 +591,8 @@ def correspondence(ctx):
             tag = f"{c['mask']}/{c['method']}/{'sq' if c['m'] == c['n'] else 'nonsq'}/{'shift' if any(c['shift']) else 'noshift'}"
             ctx.case('fpm_vs_model', c, nontrivial=f.size > 1, tag=tag)
             try:
-                out = pr.to_fpm_and_back(f, c['dx'], c['efl'], c['lam'], mk, c['fdx'], shift=sh, method=c['method'])
+                out = C.pure_call(ctx, 'fpm_vs_model', c, pr.to_fpm_and_back, f, c['dx'], c['efl'], c['lam'], mk, c['fdx'], shift=sh,
+                                  method=c['method'])
             except Exception as ex:
                 ctx.disagree('fpm_vs_model', c, f'raised {type(ex).__name__}: {ex}', 'model returns a field')
                 continue
@@ -428,23 +622,29 @@ def correspondence(ctx):
         run(c['item'], c['input'], tag='corpus')
     for i in range(n_pred):
         c = gen_fixed(rng, hi, i)
-        base = f"{c['dir']}/{c['method']}/{'sq' if c['m'] == c['n'] else 'nonsq'}"
+        base = f"{c['dir']}/{c['method']}/{'sq' if c['m'] == c['n'] else 'nonsq'}/{c['dtype']}-{c['layout']}"
         run('linear', c, True, tag=base)
         run('pad', c, any(c['pad']), tag=f"{base}/par{(c['m'] + c['pad'][0]) % 2}{(c['n'] + c['pad'][1]) % 2}")
         run('transpose', c, c['m'] * c['n'] > 1, tag=base)
+        if i % 2 == 0:
+            run('methods_agree', c, True, tag=f"{c['dir']}/{'shift' if any(c['shift']) else 'noshift'}/{c['dtype']}")
     for i in range(n_pred):
         c = gen_exec(rng, hi, i)
-        base = f"{c['dir']}/{c['method']}/{'Qiso' if c['Q'][0] == c['Q'][1] else 'Qaniso'}"
+        base = f"{c['dir']}/{c['method']}/{'Qiso' if c['Q'][0] == c['Q'][1] else 'Qaniso'}/{c['dtype']}"
         run('exec_transpose', c, True, tag=base)
         run('exec_pad', c, any(c['pad']), tag=base)
         run('exec_separable', c, True, tag=base)
     for i in range(n_pred):
         c = gen_allpass(rng, hi, i)
-        run('allpass', c, True, tag=f"{c['method']}/{'shift' if any(c['shift']) else 'noshift'}/{'wf' if c['wavefront'] else 'fn'}")
+        run('allpass', c, True, tag=(f"{c['method']}/{'shift' if any(c['shift']) else 'noshift'}/{'wf' if c['wavefront'] else 'fn'}/"
+                                     f"mask-{c['mask_wf']}-{c['mdtype']}/{c['dtype']}"))
     for i in range(n_pred // 2):
         c = gen_fpm(rng, hi, i)
-        run('babinet', c, True, tag=f"{c['mask']}/{c['method']}/{'shift' if any(c['shift']) else 'noshift'}")
-        run('babinet_wavefront', c, True, tag=f"{c['mask']}/{'lyot' if c['lyot'] else 'nolyot'}")
+        run('babinet', c, True, tag=f"{c['mask']}/{c['method']}/{'shift' if any(c['shift']) else 'noshift'}/{c['dtype']}")
+        run('babinet_wavefront', c, True, tag=f"{c['mask']}/lyot-{c['lyot']}/mask_wf-{c['mask_wf']}/more-{c['return_more']}")
+        run('return_more', c, True, tag=f"{'wf' if c['wavefront'] else 'fn'}/mask_wf-{c['mask_wf']}")
+        if i % 2 == 0:
+            run('fpm_field', c, True, tag=f"{c['mask']}/{c['dtype']}")
 
 
 # ------------------------------------------------------------------------------------------------
@@ -491,8 +691,31 @@ def _small_scope():
                          'fdx': 0.8 * lam * efl / (max(m, n) * dx), 'shift': list(sh), 'method': method, 'seed': 3,
                          'mask': mask, 'lyot': True}
                     yield 'babinet', c
+                    if (m, n) in ((3, 4), (4, 4), (6, 5)):
+                        yield 'fpm_field', c
+                        for wfm in (False, True):
+                            for mwf in (False, True, 'with_dx'):
+                                yield 'return_more', dict(c, wavefront=wfm, mask_wf=mwf)
+                        if mask == 'complex':
+                            yield 'babinet', dict(c, dtype='f8', layout='T')
+                            yield 'babinet', dict(c, mask='bool', dtype='i8')
                     if not any(sh):
                         yield 'babinet_wavefront', c
+                        if (m, n) in ((3, 4), (4, 4)):
+                            yield 'babinet_wavefront', dict(c, lyot='wavefront')
+                            yield 'babinet_wavefront', dict(c, return_more=True)
+                            yield 'babinet_wavefront', dict(c, lyot='wavefront', return_more=True, mask_wf=True)
+                if (m, n) in ((3, 4), (4, 4), (6, 5)):
+                    for direction in ('fwd', 'inv'):
+                        c = {'dir': direction, 'm': m, 'n': n, 'M': n + 1, 'N': n + 1, 'lam': lam, 'efl': efl, 'dx': dx,
+                             'dxo': 0.8 * lam * efl / (n * dx), 'shift': list(sh), 'method': method, 'seed': 3,
+                             'a': [1.5, -0.5], 'b': [0.25, 2.0], 'pad': [1, 2]}
+                        for dtype in ('f8', 'i8', 'b1'):
+                            yield 'linear', dict(c, dtype=dtype, layout='S')
+                            yield 'methods_agree', dict(c, dtype=dtype)
+                        yield 'methods_agree', c
+                        yield 'linear', dict(c, sform='int')
+                        yield 'transpose', dict(c, sform='list', hform='array')
 
 
 def search(ctx, hints):
@@ -507,8 +730,9 @@ def search(ctx, hints):
     rng = np.random.Generator(np.random.PCG64(ctx.seed + 2000))
     for i in range(ctx.scale(300, 2000)):
         cf, ce, ca, cm = gen_fixed(rng, 9, i), gen_exec(rng, 9, i), gen_allpass(rng, 9, i), gen_fpm(rng, 9, i)
-        for item, c in (('linear', cf), ('pad', cf), ('transpose', cf), ('exec_transpose', ce), ('exec_pad', ce), ('exec_separable', ce),
-                        ('allpass', ca), ('babinet', cm), ('babinet_wavefront', cm)):
+        for item, c in (('linear', cf), ('pad', cf), ('transpose', cf), ('methods_agree', cf), ('exec_transpose', ce), ('exec_pad', ce),
+                        ('exec_separable', ce), ('allpass', ca), ('babinet', cm), ('babinet_wavefront', cm), ('return_more', cm),
+                        ('fpm_field', cm)):
             d = eval_pred(item, c)
             if d is not None:
                 return {'item': item, 'input': c, 'detail': d}
@@ -528,19 +752,33 @@ def replay(inp):
 
 MANIFEST_ENTRY = {
     'technique': 'Lean 4 proof (finite Fourier sums over an abstract character; translator-generated leg arithmetic of '
-                 'to_fpm_and_back) + metamorphic pairs on the real code, each member also compared with the Lean model',
+                 'to_fpm_and_back by symbolic execution of both mask branches) + metamorphic pairs on the real code, each member '
+                 'also compared with the Lean model',
     'text': ('PROVED for all inputs (any field, any character e, every shape/parity): the fixed-sampling model is linear; embedding the '
-             'field in a larger zero array with the origin on the origin leaves every output sample unchanged (the per-axis kernel '
-             'constant 1/(n_a Q_a) = dx*dx_out/(lambda z) does not depend on the sample count); transposing the input and swapping '
-             'the per-axis arguments transposes the output (also at executor level with per-axis Q); the mask-and-return path is '
-             'additive in the mask (Babinet: mask + complement = unmasked) and linear in the field; an all-pass mask on a '
-             'band-complete M x M grid (M fpm_dx dx = lambda f, M >= both pupil sides) returns the field exactly for EVERY mask shift, '
-             'from root-of-unity orthogonality, which is itself proved from the character law when the kernel of e is Z. '
-             'TRANSLATED from the current source each run: to_fpm_and_back with both legs inlined by symbolic execution — per-axis Q '
-             'of each leg, the shift each leg finally hands to its transform (theorem: both equal shift/fpm_dx), the requested '
-             'shapes, the mask entering as a plain product; wiring of Wavefront.to_fpm_and_back and babinet. '
-             'MODELLED AND COMPARED: the real focus/unfocus_fixed_sampling, mdft/czt executors (incl. per-axis Q) and '
-             'to_fpm_and_back against the Lean model on random fields; the five metamorphic relations evaluated on the real code.'),
+             'field in a larger zero array with the origin on the origin leaves every output sample unchanged, and over the GENERATED '
+             'per-axis Q of both free functions the kernel constant 1/(n_a Q_a) does not depend on the sample count; transposing the '
+             'input and swapping the per-axis arguments transposes the output (also at executor level with per-axis Q); a separable '
+             'field transforms to the product of the per-axis transforms; the mask-and-return path is additive and C-homogeneous in '
+             'the mask (Babinet: mask + complement = unmasked) and linear in the field; an all-pass mask on a band-complete M x M '
+             'grid (M fpm_dx dx = lambda f, M >= both pupil sides) returns the field exactly for EVERY mask shift, from '
+             'root-of-unity orthogonality, itself proved from the character law when the kernel of e is Z (instantiated with '
+             'exp(-2 pi i t)); the model toFpmAndBack these theorems speak about equals the mask-and-return sum fed with the '
+             'GENERATED constants of both legs, and the arrays the Lean driver prints are these models. These are statements about '
+             'the transform model; that method=czt and method=mdft both compute it is C03.ffs_czt_engine_eq_model / C01. '
+             'TRANSLATED from the current source each run (9 items): to_fpm_and_back with both legs inlined by symbolic execution, '
+             'for an array mask and for a Wavefront mask (identical leg arguments required) — per-axis Q of each leg, the shift each '
+             'leg finally hands to its transform (theorem: both equal shift/fpm_dx), the requested shapes; Q/shift glue of '
+             'focus/unfocus_fixed_sampling. RECOGNISERS (Bool facts): mask enters as a plain product and that product travels back, '
+             'order of the return_more tuple, wiring of Wavefront.to_fpm_and_back and the dx/space it labels each returned plane '
+             'with, babinet = field - return(1 - fpm). '
+             'MODELLED AND COMPARED: focus/unfocus_fixed_sampling, the mdft/czt executors (incl. per-axis Q) and to_fpm_and_back '
+             'against the Lean model, on fields and masks of dtype complex/float/int/bool in C, Fortran, transposed and strided layout, '
+             'every documented argument spelling, with a purity guard on every call; metamorphic relations on the real code: '
+             'linearity (mixed dtypes), pad embedding, transpose, both methods agree as complex arrays under any shift, executor-level '
+             'transpose/pad/separability, all-pass (array or Wavefront mask with or without fpm_dx, function and Wavefront method, '
+             'returned container checked), Babinet additivity/complement/homogeneity, field-linearity/pad/transpose/method agreement '
+             'of to_fpm_and_back itself, return_more planes (values, order, dx, space) of to_fpm_and_back, its Wavefront method and '
+             'babinet, Lyot stop as array or Wavefront.'),
     'note': ('Trusted: Lean kernel + standard axioms; ast->Lean translator (validated by execution); numpy/scipy; float64 rounding '
              '(tolerance 1e-9, observed 1e-14). Not covered: *_backprop functions (C06), float32 mode, other backends.'),
 }
